@@ -39,6 +39,23 @@ def reconnect(a=0, clean=False, loss="done", pre=(), ka=0, lvl=4, win=None):
     return st
 
 
+def other_client_id_cases():
+    """The application reconnects under another client id (the client-side session is kept per broker
+    address; what the broker makes of the new id is its business): exchanges in every stage must resume as usual."""
+    stages = [[("pub", 0, 2)], [("pub", 0, 2), ("ack", 0, "PUBREC", "old")], [("pub", 0, 2), ("ack", 0, "PUBREC", "old"), ("pub", 0, 2), ("pub", 0, 1)],
+              [("pub", 0, 1), ("pub", 0, 2), ("pub", 0, 2), ("ack", 0, "PUBREC", "new"), ("inpub", 0, 2)]]
+    tails = [[("tick",), ("tick",)], [("ack", 0, "PUBCOMP", "old"), ("ack", 0, "PUBREC", "old")],
+             [("ack", 0, "PUBREC", "old"), ("ack", 0, "PUBCOMP", "old"), ("ack", 0, "PUBACK", "old"), ("inrel", 0, "known")]]
+    for lvl in (3, 4):
+        for st in stages:
+            for tail in tails:
+                for clean2 in (False, True):
+                    steps = connected(clean=False, win=2, lvl=lvl) + st + [("lose", 0, "lost"), ("build", 0), ("setwin", 0, 2),
+                                                                          ("connect", 0, clean2, 0, lvl, {"clientId": "another-client-id"}),
+                                                                          ("connack", 0, 0, not clean2)] + tail
+                    yield C.SessionCase("other-client-id", Cfg(profile="pubsub"), steps=steps)
+
+
 def base_histories(seed, n, flavours, profile="pubsub", persistent=None, length=14, model="sync"):
     """Record the step lists of n seeded walks (used as bases of crash-point sweeps)."""
     out = []
@@ -251,6 +268,14 @@ class P08(SessionPlan):
                 yield C.SessionCase("retx-timeout-change", Cfg(profile="pubsub", jitter="const"),
                                     steps=head + [("lose", 0, "lost"), ("build", 0), ("settimeout", 0, t2), ("connect", 0, False, 0, lvl),
                                                   ("connack", 0, 0, True), ("ack", 0, "PUBREC", "old")] + [("tick",)] * 5)
+        # packets around and above 64 KiB (remaining length of 3 bytes), a few expiries and a resumption
+        for lvl in (3, 4):
+            for size in (65400, 65536, 70000) + ((300000,) if tier == "thorough" else ()):
+                for q in (1, 2):
+                    yield C.SessionCase("retx-big", Cfg(profile="pubsub", jitter="const"),
+                                        steps=[("build", 0), ("setwin", 0, 2), ("setbw", 0, 1000000, 2), ("connect", 0, False, 0, lvl), ("connack", 0, 0, False),
+                                               ("pub", 0, q, False, size), ("tick",), ("tick",), ("lose", 0, "lost"), ("build", 0),
+                                               ("connect", 0, False, 0, lvl), ("connack", 0, 0, True), ("tick",), ("ack", 0, "PUBACK" if q == 1 else "PUBREC", "old")])
         # "for as long as it stays unacknowledged": 40 [120] consecutive expiries of one packet of each kind, then the acknowledgement
         n = 40 if tier == "quick" else 120
         for lvl in (3, 4):
@@ -289,6 +314,8 @@ class P09(SessionPlan):
         for lvl in (3, 4):
             for x in sweep_cases("sweep", cfgs(("pubsub",), ("sync",)), connected(clean=False, win=2, lvl=lvl), alpha, depth):
                 yield x
+        for x in other_client_id_cases():
+            yield x
         rel_block = connected(clean=False, win=16)
         for _ in range(20):
             rel_block += [("pub", 0, 2), ("ack", 0, "PUBREC", "new")]
@@ -400,6 +427,9 @@ class P12(CrashPlan):
     def required_counters(self, tier):
         return {"persistent_losses": 1000, "resumptions": 500, "carried": 300, "released": 50, "carried_into_clean": 100,
                 "preconnack_requests": 100}
+
+    def extra_cases(self, tier, seed):
+        return itertools.chain(other_client_id_cases(), CrashPlan.extra_cases(self, tier, seed))
 
 
 @register
@@ -644,6 +674,15 @@ class P16(SessionPlan):
 
     def extra_cases(self, tier, seed):
         ctxs = self.contexts()
+        # very many small packets in one segment (a broker flushing its backlog; a flood)
+        from . import refcodec as rc
+        many = 1500 if tier == "quick" else 20000
+        floods = [rc.encode({"t": "PINGRESP"}) * many, rc.encode({"t": "PUBACK", "id": 40000}) * many,
+                  rc.encode({"t": "PUBLISH", "qos": 0, "topic": "f", "payload": b""}) * many,
+                  (rc.encode({"t": "PUBCOMP", "id": 40001}) + rc.encode({"t": "UNSUBACK", "id": 40002})) * (many // 2)]
+        for ci in (0, 1, 4, 8, 9, 13):
+            for blob in floods:
+                yield C.SessionCase("flood/ctx%d" % ci, ctxs[ci][0], steps=list(ctxs[ci][1]) + [("raw", 0, blob), ("pub", 0, 1), ("sub", 0, "str", 1, 0)])
         for n, blob in enumerate(hostile_blobs(tier, seed)):
             targeted = blob[:1] == b"T" and len(blob) > 2 and blob[1] >> 4 in (4, 5, 6, 7, 9, 11)
             if targeted:
@@ -710,6 +749,14 @@ class P17(SessionPlan):
             for place in (65530, 65533, 65535):
                 for tail in ([("pub", 0, 1)] * 6, [("sub", 0, "str", 1, 0)] + [("pub", 0, 2)] * 4):
                     yield C.SessionCase("wrap-into-block", Cfg(profile="pubsub"), steps=blk + [("placeid", place)] + tail)
+        # a refused request (window full, bad argument) has taken an identifier; the counter then comes round to it
+        for kind, ack in ((("unsub", 0, "str", 1), "UNSUBACK"), (("sub", 0, "str", 1, 1), "SUBACK")):
+            bad = ("call", 0, "unsubscribe" if kind[0] == "unsub" else "subscribe", (5,), {})
+            for refused in ([kind], [bad], [kind, bad, kind]):
+                for place in (0, 1, 2, 3, 4, 5, 65533, 65534, 65535):
+                    yield C.SessionCase("refused-then-wrap", Cfg(profile="pubsub"),
+                                        steps=connected(win=1) + [kind] + refused + [("placeid", place), ("pub", 0, 1), ("pub", 0, 2), ("ack", 0, ack, "old"),
+                                                                                     kind, ("pub", 0, 1), ("ack", 0, ack, "old"), kind])
         # the session ends (purge) with the counter standing just before the identifiers being failed, while errbacks publish again
         for x in reentrant_end_cases(places=(0, 1, 2, 3, 4, 65535)):
             yield x
@@ -754,6 +801,13 @@ class P18(SessionPlan):
         extra = [C.SessionCase("purge-errback", Cfg(profile="pubsub", model="tcp", close_delay=d, re_disc_on="fail", re_pub_on_fail=r),
                                steps=purge + [("connack", 0, 0, False), ("adv", 9), ("pub", 0, 1)])
                  for d in (0.0, 5.0) for r in (False, True)]
+        # several packets in one segment, the application disconnecting while the first is handled: the rest of the
+        # segment arrives on a protocol that is closing
+        for prof in ("pubsub", "sub"):
+            for model in MODELS:
+                for qoss in ((1, 1), (2, 1), (0, 0, 1), (1, 2, 2), (2, 2)):
+                    extra.append(C.SessionCase("burst-disconnect", Cfg(profile=prof, model=model, close_delay=5.0, re_disc_on="onpublish"),
+                                               steps=connected(ka=5) + [("sub", 0, "str", 1, 1), ("inburst", 0, qoss), ("adv", 1), ("inrel", 0, "known"), ("adv", 9)]))
         return itertools.chain(extra,
             sweep_cases("closing-sweep", cs, pre, alpha, depth),
             sweep_cases("connecting-sweep", cs[:6], [("build", 0), ("connect", 0, True, 5, 4)],
